@@ -631,3 +631,16 @@ package silence
 //@   loop 2 invariant len(activeIDs) > 0 ==> anyActive(oldSils, now) || anyActive(newSils, now)
 //@   loop 2 invariant base(activeIDs) != base(allIDs) && seenLiveListed(oldSils, seen, now, allIDs) && seenLiveListed(newSils, seen, now, allIDs)
 //@   noeffect RecordEvent SetSilenced
+
+// ---- C09 / C11: the full state (push/pull exchange, snapshot): every stored silence is encoded, once, into the
+// output; an encoding error aborts with that error and no partial output.
+//@ func (state).MarshalBinary
+//@   props C09 C11 C19
+//@   nosafe
+//@   at call marshalMeshSilence assert [a-stored-silence] exists k string :: (k in s) && s[k] == arg0
+//@   at call Buffer).Write assert [append-the-encoding] arg1 == ret("marshalMeshSilence") && ret1("marshalMeshSilence") == nil
+//@   ensures [every-silence-encoded-once] result1 == nil ==> count("marshalMeshSilence") == len(s) && count("Buffer).Write") == len(s)
+//@   ensures [error-aborts] called("marshalMeshSilence") && ret1("marshalMeshSilence") != nil ==> result1 == ret1("marshalMeshSilence") && result0 == nil
+//@   loop 1 invariant count("marshalMeshSilence") == len(visited) && count("Buffer).Write") == len(visited) && (called("marshalMeshSilence") ==> ret1("marshalMeshSilence") == nil)
+//@   loop 1 invariant (forall k string :: (k in visited) ==> (k in s)) && dom(s) == old(dom(s))
+//@   noeffect marshalMeshSilence Buffer).Write
